@@ -27,6 +27,8 @@ pub trait Val: Sized + 'static {
     fn obs(&self) -> Obs;
     /// in-place mutation of the payload; the instance stays the same
     fn set_pay(&mut self, pay: u64);
+    /// the payload a value made from / set to `pay` reports (payloads are reduced to the type's width)
+    fn norm(pay: u64) -> u64;
 }
 
 // ---------------------------------------------------------------------------------------------
@@ -148,6 +150,9 @@ macro_rules! ledger_token {
                 let $p3: u64 = pay;
                 $set
             }
+            fn norm(pay: u64) -> u64 {
+                pay as $wire as u64
+            }
         }
 
         impl Drop for $name {
@@ -258,6 +263,9 @@ macro_rules! tokz {
                 Obs { inst: 0, pay: 0 }
             }
             fn set_pay(&mut self, _pay: u64) {}
+            fn norm(_pay: u64) -> u64 {
+                0
+            }
         }
         impl Drop for $name {
             fn drop(&mut self) {
@@ -301,6 +309,7 @@ macro_rules! plain_int {
             fn make(pay: u64) -> Self { pay as $t }
             fn obs(&self) -> Obs { Obs { inst: 0, pay: *self as u64 } }
             fn set_pay(&mut self, pay: u64) { *self = pay as $t; }
+            fn norm(pay: u64) -> u64 { pay as $t as u64 }
         }
     )*};
 }
@@ -320,6 +329,9 @@ impl Val for u128 {
     fn set_pay(&mut self, pay: u64) {
         *self = Self::make(pay);
     }
+    fn norm(pay: u64) -> u64 {
+        pay
+    }
 }
 
 macro_rules! plain_arr3 {
@@ -335,6 +347,7 @@ macro_rules! plain_arr3 {
                 Obs { inst: 0, pay: h }
             }
             fn set_pay(&mut self, pay: u64) { *self = Self::make(pay); }
+            fn norm(pay: u64) -> u64 { Self::make(pay).obs().pay }
         }
     )*};
 }
@@ -357,6 +370,9 @@ impl Val for Al16 {
     fn set_pay(&mut self, pay: u64) {
         self.0 = pay;
     }
+    fn norm(pay: u64) -> u64 {
+        pay
+    }
 }
 
 /// Plain data whose size (12) is not a multiple of 8 with alignment 4.
@@ -377,6 +393,9 @@ impl Val for P12 {
     fn set_pay(&mut self, pay: u64) {
         *self = Self::make(pay);
     }
+    fn norm(pay: u64) -> u64 {
+        pay
+    }
 }
 
 impl Val for () {
@@ -388,6 +407,9 @@ impl Val for () {
         Obs::default()
     }
     fn set_pay(&mut self, _pay: u64) {}
+    fn norm(_pay: u64) -> u64 {
+        0
+    }
 }
 
 impl Val for [u64; 0] {
@@ -401,6 +423,9 @@ impl Val for [u64; 0] {
         Obs::default()
     }
     fn set_pay(&mut self, _pay: u64) {}
+    fn norm(_pay: u64) -> u64 {
+        0
+    }
 }
 
 impl Val for String {
@@ -418,6 +443,9 @@ impl Val for String {
         self.clear();
         let _ = write!(self, "s{}", pay);
     }
+    fn norm(pay: u64) -> u64 {
+        pay
+    }
 }
 
 impl Val for Vec<u32> {
@@ -434,6 +462,9 @@ impl Val for Vec<u32> {
         self.clear();
         self.extend_from_slice(&[pay as u32, (pay >> 32) as u32, 0x7ac3]);
     }
+    fn norm(pay: u64) -> u64 {
+        pay
+    }
 }
 
 impl<T: Val> Val for Box<T> {
@@ -447,6 +478,9 @@ impl<T: Val> Val for Box<T> {
     }
     fn set_pay(&mut self, pay: u64) {
         (**self).set_pay(pay)
+    }
+    fn norm(pay: u64) -> u64 {
+        T::norm(pay)
     }
 }
 
@@ -471,6 +505,13 @@ impl<T: Val> Val for Option<T> {
         match self {
             Some(t) if pay % 5 != 0 => t.set_pay(pay),
             _ => {}
+        }
+    }
+    fn norm(pay: u64) -> u64 {
+        if pay % 5 == 0 {
+            u64::MAX - 1
+        } else {
+            T::norm(pay)
         }
     }
 }
